@@ -712,8 +712,8 @@ def fit_svd(ctx, kind, a, nc, reg=None, fr=0.5, fc=0.5, fs=0., normalized=True, 
         head = 'c09.gsvd %d %d %s %d %d %s %s %s %s %s' % (nr, ncol, enc_mat(dense), a.nnz, nc, regtok, enc_f(fr),
                                                           enc_f(fc), enc_f(fs), enc_bool(normalized))
     if status.startswith('err') and status.split(' ')[1] in SOLVER_ERRORS:
-        if kind == 'PCA' and np.all(dense == dense[0]):
-            # all rows equal: the centred matrix is the zero operator, no principal direction is defined and ARPACK refuses
+        if (kind == 'PCA' and np.all(dense == dense[0])) or not np.any(dense):
+            # all rows equal (PCA) or only stored zeros: the operator is the zero operator, no direction is defined and ARPACK refuses
             # to start; decided from the input, stated in the status file
             ctx.count('zero-operator:' + status.split(' ')[1])
             return None
